@@ -298,10 +298,16 @@ Definition p_op (c : cas) (b : blobs) (g : mon) (o : op) (x : out) : string * mo
     | _ => ("", g)
     end
   | OMerge i d fs =>
+    (* MergeDirectoryContents fetches [d] itself: success means [d] was
+       accepted as a tree *)
     if is_ok (o_status x) then
-      match aget i (mon_dirs g) with
-      | Some GEmpty => ("", set_dir_origin g i (GCas d))
-      | _ => ("", set_dir_origin g i GMod)
+      match expect c d with
+      | None => ("C17:malformed-not-error", g)
+      | Some _ =>
+        match aget i (mon_dirs g) with
+        | Some GEmpty => ("", set_dir_origin g i (GCas d))
+        | _ => ("", set_dir_origin g i GMod)
+        end
       end
     else ("", g)
   | OAttach i n d fs =>
